@@ -110,6 +110,7 @@ fn history(rep: &mut Report, rng: &mut Rng, idx: u64) {
         seq += 1;
     }
     rep.count("rotations_observed", e.rotations as i64);
+    rep.count("appends_during_which_the_policy_was_not_consulted", e.unconsulted_appends as i64);
     rep.case(&format!("{}|{:?}", e.describe(), pre_size), e.consultations > 0);
     if idx < 3 {
         rep.sample(json!({"history": e.describe(), "limit": limit, "pre_existing_size": pre_size}));
